@@ -21,17 +21,20 @@ func vpmUUIDNew() uuid.UUID { return uuid.UUID{} }
 
 // gob contract: Decode restores exactly the value that Encode was given (same exported fields).
 var vpGobBox *user
+var vpGobBoxes []user
 var vpGobW io.Writer
+var vpGobR io.Reader
 
 func vpGobNewEncoder(w io.Writer) *gob.Encoder { vpGobW = w; return nil }
-func vpGobNewDecoder(r io.Reader) *gob.Decoder { return nil }
+func vpGobNewDecoder(r io.Reader) *gob.Decoder { vpGobR = r; return nil }
 func vpGobEncode(e *gob.Encoder, v interface{}) error {
 	u, ok := v.(user)
 	if !ok {
 		return errors.New("vp: unexpected value")
 	}
-	vpGobBox = &u
-	vpGobW.Write([]byte{1}) // some non-empty encoding
+	vpGobBoxes = append(vpGobBoxes, u)
+	vpGobBox = &vpGobBoxes[len(vpGobBoxes)-1]
+	vpGobW.Write([]byte{byte(len(vpGobBoxes))}) // the encoding names the value (stand-in for its bytes)
 	return nil
 }
 func vpGobDecode(d *gob.Decoder, v interface{}) error {
@@ -39,7 +42,11 @@ func vpGobDecode(d *gob.Decoder, v interface{}) error {
 	if !ok || vpGobBox == nil {
 		return errors.New("vp: nothing to decode")
 	}
-	*p = *vpGobBox
+	var b [1]byte
+	if n, _ := vpGobR.Read(b[:]); n != 1 || b[0] == 0 || int(b[0]) > len(vpGobBoxes) {
+		return errors.New("vp: corrupt encoding")
+	}
+	*p = vpGobBoxes[b[0]-1]
 	return nil
 }
 
@@ -48,7 +55,7 @@ func vpGobDecode(d *gob.Decoder, v interface{}) error {
 //vp:bounds all ten identity fields: flags symbolic, strings of s symbolic bytes (pairwise distinct content possible), times arbitrary seconds, one attribute and one group entry
 //vp:reach restored
 func VP_C13_roundtrip() {
-	vpGobBox = nil
+	vpGobBox, vpGobBoxes = nil, nil
 	n := vpParam("s")
 	u := NewUser()
 	u.SetAuthenticated(vpBool("auth"))
@@ -81,4 +88,25 @@ func VP_C13_roundtrip() {
 	vpAssert(a == vpStringN("attr", n), "attributes-restored")
 	vpAssert(v.groupMembership["g"] == u.groupMembership["g"], "group-membership-restored")
 	vpObserveStr("user", v.UserName())
+}
+
+//vp:property C13
+//vp:bounds two identities marshalled one after the other (as two requests being saved), then the FIRST encoding is decoded: it must still describe the first identity (no sharing of encoder buffers between calls)
+//vp:reach decoded
+func VP_C13_two_marshals() {
+	vpGobBox, vpGobBoxes = nil, nil
+	a, b := NewUser(), NewUser()
+	a.SetUserName(vpStringN("user-a", 2))
+	b.SetUserName(vpStringN("user-b", 2))
+	a.SetAuthenticated(vpBool("auth-a"))
+	b.SetAuthenticated(vpBool("auth-b"))
+	ba, err := a.Marshal()
+	vpAssert(err == nil, "marshal-a")
+	_, err = b.Marshal()
+	vpAssert(err == nil, "marshal-b")
+	back := NewUser()
+	err = back.Unmarshal(ba)
+	vpAssert(err == nil, "first-encoding-still-decodes")
+	vpReach("decoded")
+	vpAssert(back.UserName() == a.userName && back.Authenticated() == a.authenticated, "first-encoding-still-describes-the-first-identity")
 }
